@@ -129,13 +129,14 @@ def run(ctx):
     feats = w1.FEATURES
     mode = 'dev'
     modes = ['dev'] if quick else ['dev', 'build']
-    prefixes = [()] if quick else [()] + [(f,) for f in feats]
+    # thorough: release mode as well, four 1-edit prefix states, kill points for four edits (the full product of the design
+    # would be ~75 000 real builds; this sandbox does 2.5 per second)
+    prefixes = [()] if quick else [()] + [(f,) for f in ('libscript', 'lib2', 'srcmod', 'twovar')]
     edits = feats
-    killsave_edits = ['libscript'] if quick else feats
+    killsave_edits = ['libscript'] if quick else ['libscript', 'srcmod', 'lib2', 'twovar']
     # 1. count state saves per (mode, prefix, edit)
     cjobs = [(m, p, e, ('count',), None, None) for m in modes for p in prefixes for e in edits
-             if (e in killsave_edits and (not p or not quick)) and (not p or p[0] != e or True)]
-    if not quick: cjobs = [j for j in cjobs if not j[1] or j[2] in ('libscript', 'lib2', 'srcmod', 'twovar')]
+             if e in killsave_edits and not p]
     counts = {}
     nrun = 0
     for key, n, viol, cnt in runner.pmap_unordered(case_worker, cjobs, chunksize=1):
@@ -146,11 +147,11 @@ def run(ctx):
     for m in modes:
         for p in prefixes:
             for e in edits:
-                steps = FAIL_STEPS if (not quick or not p) else FAIL_STEPS[:2]
+                steps = FAIL_STEPS if not p else FAIL_STEPS[:2]
                 for s in (steps if not quick else ['lib-build', 'app-build', 'root-package']):
                     jobs.append((m, p, e, ('fail', s), None))
                     jobs.append((m, p, e, ('fail', s), e))            # revert the aborted edit, then rebuild
-                for s in (['lib-build', 'root-build'] if e in ('libscript', 'srcmod', 'lib2', 'twovar') or not quick else []):
+                for s in (['lib-build', 'root-build'] if e in ('libscript', 'srcmod', 'lib2', 'twovar') and not p else []):
                     jobs.append((m, p, e, ('killscript', s), None))
                 n = counts.get((m, tuple(p), e))
                 if n:
